@@ -67,10 +67,10 @@ func init() {
 		return out
 	}
 	reg(&Oblig{ID: "TOF", Pkg: "twooffive", Func: "VP_TOF", Props: []string{"C08", "C10", "C11"},
-		Desc:  "2 of 5 standard and interleaved: accepted exactly for non-empty digit strings (even length when interleaved); every module equals the spec encoder (2-of-5 code, wide = 3, start/stop patterns, interleaved pairing); content, metadata, colours",
-		Real:  append([]string{"twooffive.Encode", "twooffive.EncodeWithColor"}, colReal...),
-		Stubs: []string{"input space split by assumption into all-digits / some-non-digit instances", "oracle: 2-of-5 code from the weights 1-2-4-7-parity construction"},
-		Bound: "content = n fully symbolic bytes; n in 0..3 standard, 0..4 interleaved (quick; the implementation forks into every digit value, 10^n paths), one more in thorough",
+		Desc:    "2 of 5 standard and interleaved: accepted exactly for non-empty digit strings (even length when interleaved); every module equals the spec encoder (2-of-5 code, wide = 3, start/stop patterns, interleaved pairing); content, metadata, colours",
+		Real:    append([]string{"twooffive.Encode", "twooffive.EncodeWithColor"}, colReal...),
+		Stubs:   []string{"input space split by assumption into all-digits / some-non-digit instances", "oracle: 2-of-5 code from the weights 1-2-4-7-parity construction"},
+		Bound:   "content = n fully symbolic bytes; n in 0..3 standard, 0..4 interleaved (quick; the implementation forks into every digit value, 10^n paths), one more in thorough",
 		Configs: tofCfg})
 	reg(&Oblig{ID: "TOF-cs", Pkg: "twooffive", Func: "VP_TOF_checksum", Props: []string{"C08", "C10"},
 		Desc:  "AddCheckSum: input kept, one digit appended that makes the 3-1 weighted sum a multiple of ten; empty / non-digit input rejected",
@@ -111,16 +111,16 @@ func init() {
 		return out
 	}
 	reg(&Oblig{ID: "C39", Pkg: "code39", Func: "VP_C39", Props: []string{"C07", "C10", "C11", "C14"},
-		Desc:  "Code 39: accepted exactly for text over the mode's alphabet; * data [mod-43 check] * with 3-of-9 patterns and narrow gaps, every module compared with the construction-derived patterns; Content = basic spelling; CheckSum() = mod-43 value; colours",
-		Real:  append([]string{"code39.Encode", "code39.EncodeWithColor", "code39.prepare", "code39.getChecksum", "utils.New1DCodeIntCheckSumWithColor"}, colReal...),
-		Stubs: []string{"oracle: patterns generated from the 3-of-9 construction (2-of-5 bar code per column, wide-space position per decade, $/+% special), full-ASCII table written from the symbology specification", "strings.ContainsRune modelled on the symbolic haystack (constant ASCII needle)"},
-		Bound: "content = n fully symbolic bytes: basic mode n<=3 (4 thorough), full-ASCII n<=1 (2 thorough; the 128-entry expansion forks per character) x checksum flag",
+		Desc:    "Code 39: accepted exactly for text over the mode's alphabet; * data [mod-43 check] * with 3-of-9 patterns and narrow gaps, every module compared with the construction-derived patterns; Content = basic spelling; CheckSum() = mod-43 value; colours",
+		Real:    append([]string{"code39.Encode", "code39.EncodeWithColor", "code39.prepare", "code39.getChecksum", "utils.New1DCodeIntCheckSumWithColor"}, colReal...),
+		Stubs:   []string{"oracle: patterns generated from the 3-of-9 construction (2-of-5 bar code per column, wide-space position per decade, $/+% special), full-ASCII table written from the symbology specification", "strings.ContainsRune modelled on the symbolic haystack (constant ASCII needle)"},
+		Bound:   "content = n fully symbolic bytes: basic mode n<=3 (4 thorough), full-ASCII n<=1 (2 thorough; the 128-entry expansion forks per character) x checksum flag",
 		Configs: c3993})
 	reg(&Oblig{ID: "C93", Pkg: "code93", Func: "VP_C93", Props: []string{"C07", "C10", "C11"},
-		Desc:  "Code 93: accepted exactly for text over the mode's alphabet; * data [C K] * + termination bar, 9-module patterns, check characters mod 47 with weights 1..20 / 1..15; colours",
-		Real:  append([]string{"code93.Encode", "code93.EncodeWithColor", "code93.prepare", "code93.getChecksum"}, colReal...),
-		Stubs: []string{"content bytes assumed < 128 (the four FNC placeholders U+00F1..U+00F4 are outside this obligation)", "oracle: 48 nine-module patterns and the full-ASCII table transcribed from the symbology specification"},
-		Bound: "content = n symbolic ASCII bytes: basic mode n<=3 (4 thorough), full-ASCII n<=1 (2 thorough) x checksum flag",
+		Desc:    "Code 93: accepted exactly for text over the mode's alphabet; * data [C K] * + termination bar, 9-module patterns, check characters mod 47 with weights 1..20 / 1..15; colours",
+		Real:    append([]string{"code93.Encode", "code93.EncodeWithColor", "code93.prepare", "code93.getChecksum"}, colReal...),
+		Stubs:   []string{"content bytes assumed < 128 (the four FNC placeholders U+00F1..U+00F4 are outside this obligation)", "oracle: 48 nine-module patterns and the full-ASCII table transcribed from the symbology specification"},
+		Bound:   "content = n symbolic ASCII bytes: basic mode n<=3 (4 thorough), full-ASCII n<=1 (2 thorough) x checksum flag",
 		Configs: c3993})
 
 	reg(&Oblig{ID: "C128-idx", Pkg: "code128", Func: "VP_C128_idx", Props: []string{"C05", "C10"},
